@@ -455,3 +455,6 @@ package cputensor
 
 // SUM-POS (paper lemma): a fibre sum of a tensor whose elements are all positive is positive
 //@ axiom sumPos: forallT(t, forallI(d, imp(forallJ(K, imp(inb(t, K), el(t, K) > 0)), forallJ(J, fsum(t, d, J) > 0))))
+
+// the mean of the fibres, un-squeezed, broadcasts back onto the tensor it was reduced from: subtracting it keeps the shape
+//@ lemma unsqRedShape: forallT(o, forallT(u, forallT(m, forallT(x, forallI(d, imp(unsqShape(u, m, d) && redShape(m, x, d) && 0 <= d && d < rank(x) && bshape(o, x, u), sameShape(o, x)))))))
